@@ -289,7 +289,7 @@ Proof.
     + apply Z.ltb_lt in Pv.
       destruct (0 <? truncate_int (provision (s_params s) (peek (s_period s)))) eqn:Pa; cbn [negb].
       * apply Z.ltb_lt in Pa.
-        rewrite (allocate_ok _ _ _ Hd Hm ltac:(lia)). cbn.
+        rewrite (allocate_ok _ _ _ Hd Hm (Z.lt_le_incl _ _ Pa)). cbn.
         destruct Hd as [D1 [D2 [D3 D4]]].
         split; [lia|]. split; [|intro; lia]. intros _.
         rewrite !share_eq by lia. repeat split; lia.
@@ -364,11 +364,11 @@ Proof.
   assert (0 <? poly_provision p per = true) as -> by (apply Z.ltb_lt; lia). cbn [negb].
   pose proof (truncate_ge1 _ Hprov) as Hamt.
   assert (0 <? truncate_int (poly_provision p per) = true) as -> by (apply Z.ltb_lt; lia). cbn [negb].
-  rewrite Hm, (allocate_ok p 0 _ Hd ltac:(lia) ltac:(lia)). cbn [andb fst snd o_minted s_period s_skipped].
+  rewrite Hm, (allocate_ok p 0 (truncate_int (poly_provision p per)) Hd ltac:(lia) ltac:(lia)). cbn [andb fst snd o_minted s_period s_skipped].
   rewrite rollover_small by lia.
   split; [reflexivity|]. split; [|reflexivity].
   destruct (p_epp p <=? e - p_epp p * per - k); [|reflexivity].
-  cbn [peek]. apply wrap_small. rewrite <- T2, <- T1. lia.
+  cbn [peek]. apply wrap_small. rewrite <- T2, <- T1. nia.
 Qed.
 
 (** behind the schedule (period < floor((n-1)/EPP)): every enabled epoch mints the amount of the lagging
@@ -418,7 +418,7 @@ Proof.
   assert (Roll : E <=? e - E * per - k = false).
   { apply Z.leb_gt.
     assert (e - k - 1 < E * per).
-    { apply Z.div_lt_upper_bound in Hahead; lia. }
+    { pose proof (Z.mul_succ_div_gt (e - k - 1) E ltac:(lia)). nia. }
     lia. }
   rewrite Roll in B. auto.
 Qed.
@@ -521,6 +521,24 @@ Proof.
   intro X. rewrite X in H0. cbn in H0. apply Z.eqb_eq in H0. exact H0.
 Qed.
 
+Lemma combine_fst {A B} (a : list A) : forall (b : list B), length b = length a -> map fst (combine a b) = a.
+Proof.
+  induction a as [|x a IH]; intros [|y b] L; cbn in *; try discriminate; [reflexivity|].
+  f_equal. apply IH. lia.
+Qed.
+
+Lemma combine_snd_map {A B C} (f : B -> C) (a : list A) :
+  forall (b : list B), length b = length a -> map (fun x => f (snd x)) (combine a b) = map f b.
+Proof.
+  induction a as [|x a IH]; intros [|y b] L; cbn in *; try discriminate; [reflexivity|].
+  f_equal. apply IH. lia.
+Qed.
+
+Lemma run_length zp : forall ops s, length (snd (run zp s ops)) = length ops.
+Proof.
+  induction ops as [|o r IH]; intro s; [reflexivity|]. rewrite run_cons. cbn [snd length]. rewrite IH. reflexivity.
+Qed.
+
 (** wherever the check evaluates the schedule predicate ([pre] holds), the case is inside the hypotheses of
     [refines_schedule]; hence the MODEL's trace of that case satisfies the predicate *)
 Lemma pre_sound c :
@@ -528,24 +546,23 @@ Lemma pre_sound c :
   P_trace (start_q c) (combine (map fst (c_tr c)) (snd (run (c_zp c) (c_init c) (map fst (c_tr c))))).
 Proof.
   unfold pre, start_q. destruct (first_day (map fst (c_tr c))) as [e|] eqn:Fd; [|discriminate].
-  intro H. repeat (apply andb_true_iff in H; destruct H as [H ?]).
+  intro H.
+  apply andb_true_iff in H. destruct H as [H H0].
+  apply andb_true_iff in H. destruct H as [H H1].
+  apply andb_true_iff in H. destruct H as [H H2].
+  apply andb_true_iff in H. destruct H as [H H3].
   apply consistentb_sound in H. apply Z.eqb_eq in H3. apply Z.leb_le in H1. apply hist_okb_sound in H0.
   assert (Hs : small (p_epp (s_params (c_init c))) (p_max (s_params (c_init c)))).
-  { unfold smallb in H2. repeat (apply andb_true_iff in H2; destruct H2 as [H2 ?]).
+  { unfold smallb in H2.
+    apply andb_true_iff in H2. destruct H2 as [H2 H4]. apply andb_true_iff in H2. destruct H2 as [H2 H5].
     apply Z.ltb_lt in H2. apply Z.leb_le in H5. apply Z.ltb_lt in H4. repeat split; assumption. }
   pose proof (Consistent_R _ _ H H3 H1) as HR.
   destruct (refines_schedule _ _ _ _ _ _ _ Hs HR H0) as [V _].
   unfold P_trace.
   set (ops := map fst (c_tr c)) in *. set (outs := snd (run (c_zp c) (c_init c) ops)) in *.
-  assert (L : length outs = length ops).
-  { unfold outs. clear. generalize (c_init c). induction ops as [|o r IH]; intro s; [reflexivity|].
-    rewrite run_cons. cbn [snd length]. rewrite IH. reflexivity. }
-  assert (M1 : map fst (combine ops outs) = ops).
-  { clear - L. revert outs L. induction ops as [|o r IH]; intros [|x xs] L; cbn in *; try discriminate; [reflexivity|].
-    f_equal. apply IH. lia. }
-  assert (M2 : map (fun x => view_of (snd x)) (combine ops outs) = map view_of outs).
-  { clear - L. revert outs L. induction ops as [|o r IH]; intros [|x xs] L; cbn in *; try discriminate; [reflexivity|].
-    f_equal. apply IH. lia. }
+  assert (L : length outs = length ops) by apply run_length.
+  pose proof (combine_fst ops outs L) as M1.
+  pose proof (combine_snd_map view_of ops outs L) as M2.
   rewrite M1, M2. exact V.
 Qed.
 
@@ -586,10 +603,37 @@ Example ex_mints :
   (nth 3 (map o_minted (snd (run true genesis_state ex_ops))) 0,
    nth 33 (map o_minted (snd (run true genesis_state ex_ops))) 0,
    nth 35 (map o_minted (snd (run true genesis_state ex_ops))) 0) =
-  (594248830218, 583190709605, 0).
+  (594248830218, 583191333818, 0).
 Proof. vm_compute. reflexivity. Qed.
 
 Example behind_nonvacuous :
   let s := bad_genesis in
   peek (s_period s) < (n_of s 7 - 1) / p_epp (s_params s) /\ PREC <= poly_provision (s_params s) (peek (s_period s)).
 Proof. vm_compute. split; [reflexivity|discriminate]. Qed.
+
+(* ---------------------------------------------------------------- statements in terms of [Consistent] *)
+
+Theorem period_tracks_schedule : forall zp ops s e,
+  let p := s_params s in
+  Consistent s e -> s_module s = 0 -> 0 <= peek (s_skipped s) -> small (p_epp p) (p_max p) ->
+  hist_ok zp (p_epp p) (p_max p) p (n_of s e - 1) e ops ->
+  map view_of (snd (run zp s ops)) = snd (spec_run {| q_params := p; q_c := n_of s e - 1 |} ops) /\
+  exists e', Consistent (fst (run zp s ops)) e' /\
+             fst (spec_run {| q_params := p; q_c := n_of s e - 1 |} ops) =
+             {| q_params := s_params (fst (run zp s ops)); q_c := n_of (fst (run zp s ops)) e' - 1 |}.
+Proof.
+  intros zp ops s e p Hc Hm Hk Hs Hh.
+  pose proof (Consistent_R s e Hc Hm Hk) as HR.
+  destruct (refines_schedule zp _ _ ops s e _ Hs HR Hh) as [V [e' [c' [HR' Eq]]]].
+  split; [exact V|]. exists e'. destruct (R_Consistent _ _ _ _ _ HR') as [C' Ec]. split; [exact C'|].
+  unfold p. rewrite Eq. rewrite Ec. reflexivity.
+Qed.
+
+(** "polynomial positive below MaxPeriod" gives the pointwise hypothesis of [hist_ok] at every position *)
+Lemma poly_ok_prov_ok zp p c : poly_ok zp p -> 0 < p_epp p -> 0 <= c -> prov_ok zp p c.
+Proof.
+  intros H HE Hc L. pose proof (Z.div_pos c (p_epp p) Hc HE) as D.
+  unfold poly_ok in H. destruct zp.
+  - apply H. lia.
+  - specialize (H (c / p_epp p) ltac:(lia)). lia.
+Qed.
